@@ -119,4 +119,16 @@ TEXT["C19"] = dict(
         "defects repaired (search handles survived SFileCloseArchive; names > MAX_PATH overran caller buffers; "
         "SFileVerifyArchive self-deadlocked)."),
   technique="Lean 4 proof (invariant by induction over call sequences, kernel-decided lock-graph acyclicity) + stateful differential correspondence + watchdog stress")
+TEXT["C01"] = dict(
+  text=("Machine-checked Lean 4 carrier theorems about an MPQ reader/writer model, one per mechanism the property names: "
+        "insertion probing mirrors lookup probing (first free slot of a duplicate-free probe order is found again); every "
+        "spelling of a name finds the same block and derives the same key (from C04's fold invariance); encryption inverts "
+        "under both tail conventions; sector splitting partitions the file; the raw-vs-compressed decision is recovered "
+        "from sizes alone; table encryption inverts. The model is tied to the code BOTH WAYS on real archive bytes: the Lean "
+        "reader reads what the Rust builder wrote across the configuration product, the Rust reader reads what the Lean "
+        "writer wrote, plus the property oracle (every spelling, never-added names, listing, sizes) on the implementation."),
+  note=("PARTIAL: whole-archive composition not proved as one theorem; codecs are a table; HET/BET not modelled. Two defects "
+        "repaired (all-raw multi-sector files read back with their offset table / garbage when encrypted; failed sector "
+        "decompression became zeros); known finding D2 (ratio limits reject own output) shared with C03."),
+  technique="Lean 4 proof (open-addressing, cipher and layout lemmas) + two-way differential correspondence on real archive bytes")
 NA = {}
